@@ -424,6 +424,10 @@ func CheckFull(t *wmpt.WeightedMerkleTrie, m Model, checkRoot bool) string {
 			return fmt.Sprintf("Root() = %x, independent reference root = %x", got, wr)
 		}
 	}
+	// the keys and proofs handed out are kept (an ownership table) and looked at again after all calls; a kept proof
+	// and value are overwritten right after use: results belong to the caller
+	var keptKeys [][]byte
+	var keptOwners []string
 	for b := uint64(1); b <= ww; b++ {
 		k, proof, err := t.GetBlockProof(b)
 		if err != nil {
@@ -432,6 +436,9 @@ func CheckFull(t *wmpt.WeightedMerkleTrie, m Model, checkRoot bool) string {
 		owner, _ := m.Owner(b)
 		if string(k) != owner {
 			return fmt.Sprintf("block %d of %d is owned by key %x, GetBlockProof names %x", b, ww, owner, k)
+		}
+		if len(keptKeys) < 64 {
+			keptKeys, keptOwners = append(keptKeys, k), append(keptOwners, owner)
 		}
 		v := wmpt.New(nil, nil)
 		h, val, err := v.VerifyBlockProof(b, proof)
@@ -443,6 +450,17 @@ func CheckFull(t *wmpt.WeightedMerkleTrie, m Model, checkRoot bool) string {
 		}
 		if !bytes.Equal(val, m[owner].Val) {
 			return fmt.Sprintf("proof of block %d yields value %q, the owner's value is %q", b, val, m[owner].Val)
+		}
+		for i := range proof {
+			proof[i] ^= 0x5a
+		}
+		for i := range val {
+			val[i] ^= 0x5a
+		}
+	}
+	for i, k := range keptKeys {
+		if string(k) != keptOwners[i] {
+			return fmt.Sprintf("the key returned for block %d (%x) changed to %x after later GetBlockProof calls", i+1, keptOwners[i], k)
 		}
 	}
 	if _, _, err := t.GetBlockProof(ww + 1); err == nil && ww > 0 {
